@@ -24,6 +24,9 @@ def gen(r, n):
     # while draining leaked handles: the signal changes neither the verdict nor the wait
     scs.append(dict(u=150, period=20, ta=None, grace=2, leak=2, dur=1.5, hold=6, on_term="exit", sigs=[(2.5, "INT")]))
     scs.append(dict(u=150, period=20, ta=None, grace=2, leak=3, dur=0.5, hold=7, on_term="exit", sigs=[(1.5, "TERM")]))
+    # a setup script running when the signal comes
+    scs.append(dict(u=150, period=20, ta=None, grace=2, leak=0.7, dur=9, on_term="ignore", sigs=[(1.5, "INT")], as_script=True))
+    scs.append(dict(u=150, period=20, ta=None, grace=3, leak=0.7, dur=9, on_term="ignore", sigs=[(1.5, "HUP"), (2.5, "HUP")], as_script=True))
     # during a timeout grace period
     scs.append(dict(u=150, period=1, ta=1, grace=4, leak=0.7, dur=12, on_term="ignore", sigs=[(2.5, "TERM")]))
     while len(scs) < n:
